@@ -18,7 +18,7 @@
    (names C20_pol_...), third part: Miniscript::translate_pk_ctx with hash translation (names C20_trh_...). *)
 From Coq Require Import Permutation.
 From Verif Require Import TranslateModel TranslateProofs EqOrdProofs.
-From Verif Require Import TranslatePolModel TranslatePolProofs TranslateHashModel TranslateHashProofs TranslateHashDescProofs.
+From Verif Require Import TranslatePolModel TranslatePolProofs TranslateHashModel TranslateHashProofs TranslateHashDescProofs TranslateHashFailProofs.
 
 (* ---- the algorithm as coded computes the recursive translation: same result, same first error, no panic *)
 Theorem C20_tr_iter_refines : forall f chk m, translate_iter f chk m = translate f chk m.
@@ -259,15 +259,16 @@ Theorem C20_trh_complete : forall fp fhp chk m,
 Proof. exact iter_h_complete. Qed.
 Print Assumptions C20_trh_complete.
 
-(* a failure is caused by a key or hash of the term on which the mapping fails, or (everything mapped) by from_ast rejecting
-   a node of the substituted term.  (The finer statement C20_tr_fail_only, which names the rejected sub-term and the error,
-   is proved for the key-only model; here the weaker form is proved.) *)
-Theorem C20_trh_fail_only_partial : forall fp fhp chk m e,
+(* ---- tr_fail_only for the hash machine (same form as C20_tr_fail_only): a failure is either `TranslatorErr` on a key or
+        hash of the term that the mapping does not map, or `OuterErr c` for a sub-term all of whose keys and hashes are mapped
+        and whose substitution from_ast rejects with c *)
+Theorem C20_trh_fail_only : forall fp fhp chk m e,
   translate_iter_h (fun _ => fp) (fun _ => fhp) chk m = TErr e ->
-  (exists a, In a (matoms_pre m) /\ atom_ok fp fhp a = false) \/
-  ((forall a, In a (matoms_pre m) -> atom_ok fp fhp a = true) /\ ~ chk_ok chk (map_atoms (total fp) (total_h fhp) m)).
-Proof. exact iter_h_fail_only. Qed.
-Print Assumptions C20_trh_fail_only_partial.
+  (exists i a, e = TranslatorErr i /\ In a (matoms_pre m) /\ atom_ok fp fhp a = false) \/
+  (exists c s, e = OuterErr c /\ In s (subterms m) /\ (forall a, In a (matoms_pre s) -> atom_ok fp fhp a = true) /\
+               chk (map_atoms (total fp) (total_h fhp) s) = Some c).
+Proof. exact iter_h_fail_only_named. Qed.
+Print Assumptions C20_trh_fail_only.
 
 Theorem C20_trh_call_order : forall m, Permutation (matoms_rtl m) (matoms_pre m).
 Proof. exact matoms_perm. Qed.
